@@ -8,6 +8,7 @@ import Driver.PubOps
 import Driver.UiOps
 import Driver.PresentOps
 import Driver.MediaOps
+import Driver.F64Ops
 
 /-
   One function per op of the line protocol.  Each takes the op's JSON (which also carries the
@@ -135,6 +136,7 @@ def dispatch (j : Json) : Except String Res := do
   | "replacelast" | "setlength" | "scrub" | "squash" | "height" | "unicode" => ansiOp op j
   | "accessor" => accessorOp j
   | "hextoansi" => hexOp j
+  | "f64sem" => f64semOp j
   | "config" => configOp j
   | "hook" => hookOp j
   | "media" => mediaOp j
